@@ -195,14 +195,27 @@ def check_case(case, res):
     elif kind == 'grid':
         from frame.die.die import Die
         w, h = case['w'], case['h']
-        d = Die({'width': w, 'height': h})
+        tree = {'width': w, 'height': h}
+        strip = case.get('strip')
+        if strip:
+            # a die that is NOT empty: a blockage strip along one full side (it still has a single ground rectangle)
+            tree['regions'] = [[w / 2, h * 0.9, w, h * 0.2, '#']] if strip == 'top' else [[w * 0.1, h / 2, w * 0.2, h, '#']]
+        d = Die(tree)
         before = snapshot(d)
-        attrs = dict(rows=case['rows'], cols=case['cols'])
+        attrs = dict(rows=case['rows'], cols=case['cols'], strip=strip)
         try:
             d.initial_grid(case['rows'], case['cols'])
         except Exception as e:  # noqa
+            if strip:
+                res.case('grid-refused-on-non-empty-die', nontrivial=False)     # the request is for an empty die: refusing is right
+                return
             res.violation('raises', case, attrs, 'grid created', f'{type(e).__name__}: {e}')
             res.case('raised')
+            return
+        if strip:
+            # accepted on a non-empty die: then at least the post-conditions must hold (they cannot for an r x c grid of the die)
+            post_conditions(case, res, attrs, before, d, max(w, h), count_eq=case['rows'] * case['cols'])
+            res.case('grid-on-non-empty-die')
             return
         post_conditions(case, res, attrs, before, d, max(w, h), count_eq=case['rows'] * case['cols'])
         # a grid: every cell has the same size
@@ -252,6 +265,10 @@ def run_shard(shard, tier, res):
                         continue
                     reset_frame_state()
                     check_case(dict(kind='grid', w=w, h=h, rows=rows, cols=cols), res)
+                    if rows <= 2 and cols <= 3:
+                        for strip in ('top', 'left'):
+                            reset_frame_state()
+                            check_case(dict(kind='grid', w=w, h=h, rows=rows, cols=cols, strip=strip), res)
         res.samples.append(dict(kind='grid', w=6, h=3, rows=2, cols=5))
     else:
         calls1 = [(1.5, 3), (2.0, 5), (3.0, 1)]
